@@ -354,9 +354,9 @@ fn make_case(seed: u64, i: u64) -> Case {
     let na = if i % 45 == 44 { 100_200 + (i % 7) as usize } else { sci_common::gen::pick_len(&mut r, i / 18, &[5000]) };
     let nb = sci_common::gen::pick_len(&mut r, i / 18 + 5, &[700]);
     let mut a = Spec { family: fam(&mut r), n: na, seed: r.next_u64(), f32, positive };
-    // every 30th mean-type input is a constant sample (zero variance: degenerate interval, but the
+    // one block of inputs in eight (all producers, f32 and f64 alike) uses a constant sample (zero variance: degenerate interval, but the
     // kind of the result must still follow the confidence)
-    if i % 30 == 17 && matches!(prod, Prod::Arithmetic | Prod::Paired | Prod::Geometric | Prod::Harmonic) {
+    if (i / 18) % 8 == 3 && matches!(prod, Prod::Arithmetic | Prod::Paired | Prod::Geometric | Prod::Harmonic) {
         a.family = Family::Constant;
         a.n = na.min(50);
     }
@@ -414,6 +414,7 @@ pub fn run(run: &Arc<Run>) {
         let c = make_case(seed, i);
         l.count_s(format!("producer:{:?}", c.prod));
         if c.a.family == Family::Constant {
+            l.count_s(format!("constant (zero-variance) input:{:?}", c.prod));
             l.count("constant (zero-variance) input");
         }
         if c.a.n > 100_001 {
@@ -425,7 +426,7 @@ pub fn run(run: &Arc<Run>) {
             judge::<f64>(&c, &levels, l)
         }
     });
-    let mut req: Vec<String> = vec!["result kind judged".into(), "point estimate containment judged".into(), "2L-1 identity judged".into(), "2L-1 identity judged bit-exactly (dyadic level)".into(), "nesting judged".into(), "input beyond the t->z switch (n > 100 001)".into(), "constant (zero-variance) input".into(), "order-independence groups judged".into()];
+    let mut req: Vec<String> = vec!["result kind judged".into(), "point estimate containment judged".into(), "2L-1 identity judged".into(), "2L-1 identity judged bit-exactly (dyadic level)".into(), "nesting judged".into(), "input beyond the t->z switch (n > 100 001)".into(), "constant (zero-variance) input".into(), "constant (zero-variance) input:Arithmetic".into(), "constant (zero-variance) input:Paired".into(), "order-independence groups judged".into()];
     for p in PRODS {
         req.push(format!("producer:{:?}", p));
     }
